@@ -921,26 +921,49 @@ def stage_proto(ctx, bins, c11req, proto, t, version, only=None):
                         got.append(strata[k][rounds])
                 rounds += 1
             return got
+        def interleave(keys):
+            groups = {}
+            for k in keys:
+                groups.setdefault((k[0], k[1], k[2], k[3]), []).append(k)
+            gl = [groups[g] for g in sorted(groups, key=str)]
+            out = []
+            while any(gl):
+                for g in gl:
+                    if g:
+                        out.append(g.pop())
+            return out
         keys = sorted(strata, key=str)
         rng.shuffle(keys)
+        keys = interleave(keys)      # every (behaviour, timing, error) combination before a second stratum of one
         # cases that wait for a time-out or a slow plugin cost seconds each: bounded share, run first
         slowk = [k for k in keys if k[0] == "Hang" or k[1] == "slow"]
         fastk = [k for k in keys if not (k[0] == "Hang" or k[1] == "slow")]
         nslow = min(max(24, t["n_proto"] // 5), t["n_proto"] // 2)
         chosen = round_robin(slowk, nslow) + round_robin(fastk, t["n_proto"] - nslow)
+        for what, pred in (("hang", lambda c: c["cs"]["beh"] == "Hang"),
+                           ("slow plugin over the limit", lambda c: c["killed"] and c["cs"]["beh"] != "Hang"),
+                           ("slow plugin without limit", lambda c: c["cs"]["dur"] == "slow" and c["rc"] == "zero"),
+                           ("patched file", lambda c: c["patched"] > 0 and c["rc"] == "zero"),
+                           ("feed error", lambda c: c["ferr"]),
+                           ("response error", lambda c: c["cs"]["beh"] == "Ok" and c["cs"]["rerr"]),
+                           ("exit code with valid output", lambda c: c["cs"]["beh"] == "ExitN" and c["cs"]["wrote"])):
+            if not any(pred(c) for c in chosen):
+                raise vlib.MachineryError("vacuous protocol sample: no case with " + what)
+        if set(c["cs"]["beh"] for c in chosen) != {"Ok", "ExitN", "Garbage", "Partial", "Empty", "Hang"}:
+            raise vlib.MachineryError("vacuous protocol sample: a behaviour is missing")
         cases = []
         for c in chosen:
             for v in proto_variants(c["cs"], rng, t):
                 cases.append(proto_case(c["cs"], len(cases), v))
+        cs = {"beh": "Partial", "dur": "fast", "limit": 20000, "code": 0, "wrote": True, "rerr": "",
+              "warns": ["w1"], "items": [{"k": "File", "name": "a", "content": [{"t": "x"}, {"m": "p"}, {"t": "y"}]}]}
+        # every kind of garbage once
+        for g in garbage_variants(rng):
+            cases.append(proto_case(dict(cs, beh="Garbage", wrote=False), len(cases), {"garbage_hex": g.hex()}))
         if t["partial_all"]:
-            # every proper prefix of one valid response
-            cs = {"beh": "Partial", "dur": "fast", "limit": 20000, "code": 0, "wrote": True, "rerr": "",
-                  "warns": ["w1"], "items": [{"k": "File", "name": "a", "content": [{"t": "x"}, {"m": "p"}, {"t": "y"}]}]}
+            # every proper prefix of one valid response (the plugin clamps the cut to a proper prefix)
             for cut in range(1, 140):
                 cases.append(proto_case(cs, len(cases), {"cut": cut}))
-            for g in garbage_variants(rng):
-                cs2 = dict(cs, beh="Garbage", wrote=False)
-                cases.append(proto_case(cs2, len(cases), {"garbage_hex": g.hex()}))
     ref_cache = {}
 
     def ref_of(c):
@@ -1128,14 +1151,19 @@ def run(ctx, args):
             raise vlib.MachineryError("unknown replay stage %r" % st)
         return ctx.finish("replay of one case")
     rng = random.Random(ctx.seed)
+    vlib.log("builds done at %.0fs" % (time.time() - ctx.t0))
     dags, params, proto, shapes = generate(ctx, t)
+    vlib.log("generation done at %.0fs" % (time.time() - ctx.t0))
     progs = make_programs(ctx, t, dags, shapes, rng)
     parallel(lambda p: materialise(ctx, p), progs, 8)
     vlib.log("%d programs" % len(progs))
+    vlib.log("programs written at %.0fs" % (time.time() - ctx.t0))
     refs = stage_codec(ctx, c11req, progs)
+    vlib.log("codec stage done at %.0fs" % (time.time() - ctx.t0))
     stage_argv(ctx, c11req, params)
     vlib.log("in-process stages done at %.0fs" % (time.time() - ctx.t0))
     stage_backend_patches(ctx, bins, t)
+    vlib.log("backend patch stage done at %.0fs" % (time.time() - ctx.t0))
     stage_requests(ctx, bins, c11req, progs, refs, params, t, version)
     vlib.log("request stage done at %.0fs" % (time.time() - ctx.t0))
     stage_proto(ctx, bins, c11req, proto, t, version)
